@@ -213,8 +213,8 @@ class It(GL.Interp):
             if a[0] == "ptrD" and b[0] == "ptrD":
                 t = f"(({paren(a[1])} == {paren(b[1])}) && ({paren(L_render(a[2]))} == {paren(L_render(b[2]))}))"
                 return ("bool", t if k == "==" else f"(!{t})")
-            if a[0] == "elist" and b[0] == "elist":
-                t = f"(Exts.eqv {paren(a[1])} {paren(b[1])})"
+            if a[0] in ("elist", "etuple") and b[0] in ("elist", "etuple"):
+                t = f"(Exts.eqv {paren(a[1])} {paren(b[1])})"    # tuple equality of ranges, element by element
                 return ("bool", t if k == "==" else f"(!{t})")
             if a[0] == "lvref":
                 a = self.read_lv(a[1])
@@ -312,6 +312,8 @@ class It(GL.Interp):
                 return self.inline(base, args)
             if base in ("is_empty", "stride", "size") and self.kind in RECS and not args:
                 return self.method_on_this(base)
+            if base == "base" and not args and self.kind in ("exts", "exts1"):
+                return ("etuple", self.recv)
             return None
         if fn[0] == "mem":
             obj, name = fn[1], fn[2]
@@ -528,6 +530,10 @@ TARGETS = [
     ("X_to_linear", "extsD", "to_linear", dict(nparams=2), "exts"),
     ("X_next_canonical", "extsD", "next_canonical", dict(nparams=2), "exts"),
     ("X_prev_canonical", "extsD", "prev_canonical", dict(nparams=2), "exts"),
+    ("X_eq", "extsD", "operator==", dict(nparams=2), "exts"),
+    ("X_ne", "extsD", "operator!=", dict(nparams=2), "exts"),
+    ("X1_eq", "exts1", "operator==", dict(nparams=1), "exts1"),
+    ("X1_ne", "exts1", "operator!=", dict(nparams=1), "exts1"),
     ("X1_from_linear", "exts1", "from_linear", dict(nparams=1), "exts1"),
     ("X1_to_linear", "exts1", "to_linear", dict(nparams=1), "exts1"),
     ("X1_num_elements", "exts1", "num_elements", dict(nparams=0), "exts1"),
@@ -594,6 +600,8 @@ def param_kinds(params, kind):
         isref = ty.endswith("&") and "const" not in ty
         if re.search(r"(array_iterator|elements_iterator_t)\s+const\s*&$", ty):
             out.append((name, "rec", False))
+        elif re.search(r"extensions_t\s+const\s*&$", ty):
+            out.append((name, "elist", False))
         elif pack:
             out.append((name, "ilist", isref))
         else:
@@ -639,6 +647,13 @@ def translate_one(lean_name, region, cpp, sel, kind):
         binders = []
         for n, k, isref in param_kinds(fn["params"], kind):
             ln = GL.lean_ident(n)
+            if k == "elist":
+                if n == "self":
+                    it.env[n] = ("elist", recv)
+                    continue
+                it.env[n] = ("elist", ln)
+                binders.append(f"({ln} : List Ext)")
+                continue
             if k == "rec":
                 if n == "self":
                     continue
@@ -653,7 +668,7 @@ def translate_one(lean_name, region, cpp, sel, kind):
                 binders.append(f"({ln} : Int)")
             if isref:
                 it.refparams.append((n, k))
-        if any(n == "self" for n, _, _ in param_kinds(fn["params"], kind)):
+        if kind in RECS and any(n == "self" for n, _, _ in param_kinds(fn["params"], kind)):
             it.env["self"] = ("rec", kind, dict(it.rec))
         ast = GL.P(GL.lex("{" + fn["body"] + "}", fn["line"])).block()
         r = it.run(ast[1])
